@@ -1,4 +1,5 @@
 import FiberModel.C20.Lemmas
+import FiberModel.C20.ServeLemmas
 import FiberModel.C20.CookieScanLemmas
 /-
 C20 — property theorems (only). Helper lemmas: Base64Lemmas.lean, Lemmas.lean.
@@ -445,23 +446,274 @@ theorem roundtrip_text {A : Aead} (hA : A.Correct) (hG : A.GcmShape) (key : Byte
   rw [scan_of_written (encryptJar_rel _ ex cs ns ws hns h) hnames htail hparse]
   exact roundtrip_aesgcm hA hG key ex ns cs ws hns hb hkey hnd h
 
+/-! ## `Config.Next`, the whole handler, its surroundings -/
+
+/-- REQUEST DIRECTION WITH `Config.Next`: when `cfg.Next(c)` says skip every view shows the client's
+    cookies exactly as they arrived (nothing is decrypted — no hypothesis about the codec is needed);
+    otherwise `request_meets_spec`. -/
+theorem request_meets_spec_next {C : Codec} {wc : WireCodec} {iss : Issued} (skip : Bool) (ex : List Bytes)
+    (j : Jar) (hS : skip = false → C.SoundOn wc iss j) (hC : skip = false → C.Complete wc iss)
+    (ks : List Bytes) : reqViolationAt skip wc ex iss j (mwViews skip C ex j ks) = none := by
+  cases skip with
+  | true => simp [reqViolationAt, mwViews, skip_request_ok]
+  | false => simpa [reqViolationAt, mwViews] using request_meets_spec ex j (hS rfl) (hC rfl) ks
+
+/-- a skipped exchange is not touched, in either direction: the handlers see the raw collection, the
+    response cookies keep stored key and text, and nothing is issued -/
+theorem next_skip_passthrough (m : Mw) (x : Exchange) (h : x.skip = true) :
+    (serve m x).views = some (rawViews x.jar x.ks) ∧ (serve m x).mid = x.cookies.map keep ∧
+    passThrough x.cookies (serve m x).mid = true := by
+  simp [serve, h, passThrough_keep]
+
+/-- WHEN THE ENCRYPTOR FAILS (invalid key, custom Encryptor error or panic, `rand.Reader` error) the
+    response loop stops with a panic; what is in the response at that moment — and what a recover
+    middleware in front would send — is the finished work for a prefix of the handler's cookies:
+    excepted ones verbatim, every other one re-rendered around an encrypted value. No cookie is left
+    in clear; the cookie it failed on and everything after it is gone. -/
+theorem stopped_response_is_encrypted_prefix (C : Codec) (ex : List Bytes) (ns : List Bytes)
+    (cs : List RCookie) (hns : ∀ n ∈ ns, goodNonce n) :
+    Paired (WRel C ex) (cs.take (encryptRun C ex ns cs).1.length) (encryptRun C ex ns cs).1 ∧
+    ((encryptRun C ex ns cs).2 = true → (encryptRun C ex ns cs).1.length = cs.length) ∧
+    ((encryptRun C ex ns cs).2 = false → ∃ c, cs[(encryptRun C ex ns cs).1.length]? = some c ∧
+      isDisabled c.key ex = false ∧ (ns.length < encCount ex cs ∨ ∃ n ∈ ns, C.enc n c.pvalue = none)) :=
+  ⟨encryptRun_rel C ex cs ns hns, encryptRun_complete_length C ex cs ns, encryptRun_stop C ex cs ns⟩
+
+/-- …and it is the same loop: `encryptJar` returns `ws` exactly when the run completes with `ws` -/
+theorem response_loop_completes_iff (C : Codec) (ex : List Bytes) (ns : List Bytes) (cs : List RCookie)
+    (ws : List WCookie) : encryptJar C ex ns cs = some ws ↔ encryptRun C ex ns cs = (ws, true) :=
+  encryptJar_eq_some_iff C ex ns cs ws
+
+/-- COOKIES WRITTEN BY CODE THAT IS NOT BEHIND THE MIDDLEWARE (middleware registered in front of it,
+    after its `c.Next()`; the ErrorHandler) are not encrypted — they are written after the response
+    loop ran. What the middleware produced is never altered by them: every cookie on the wire is one
+    the middleware left, or one of those late writes, whole (a late `c.Cookie` under the stored key of
+    one of the middleware's cookies REPLACES it). -/
+theorem late_writes_keep_or_replace (ws : List WCookie) (ops : List Late) (w : WCookie)
+    (h : w ∈ applyLate ws ops) : w ∈ ws ∨ ∃ l ∈ ops, l.w = w := mem_applyLate ops ws w h
+
+theorem no_late_writes (ws : List WCookie) : applyLate ws [] = ws := rfl
+
+theorem wire_clause (mid : List WCookie) (late : List Late) :
+    ((applyLate mid late).all fun w => mid.contains w || late.any fun l => l.w == w) = true := by
+  rw [List.all_eq_true]
+  intro w hw
+  rcases mem_applyLate late mid w hw with h | ⟨l, hl, he⟩
+  · simp [h]
+  · simp only [Bool.or_eq_true, List.any_eq_true]
+    right; exact ⟨l, hl, by simp [he]⟩
+
+/-- THE WHOLE HANDLER, full strength: for every configured pair (incl. a Decryptor that panics and an
+    Encryptor that fails), `Config.Next` decision, request collection, response cookies (those set in
+    front of the middleware and those set behind it), way the handlers behind end (`nil`, error, panic),
+    recover middleware or not, and late writes: the oracle finds no violated clause in what `serve`
+    produces — views, the response where the middleware is left, the wire. Hypotheses: unforgeability on
+    the request and completeness of the log (only when not skipped), wire format, a truthful log that
+    contains what this exchange issues, good nonces and enough of them, and `Told` being true of the
+    configured pair. -/
+theorem serve_meets_spec {m : Mw} {wc : WireCodec} {t : Told} {issB issA : Issued} (x : Exchange)
+    (hS : x.skip = false → m.codec.SoundOn wc issB x.jar)
+    (hC : x.skip = false → m.codec.Complete wc issB)
+    (hF : m.codec.Format wc)
+    (hfun : ∀ e ∈ issA, m.codec.dec e.1 = some e.2)
+    (hsub : x.skip = false →
+      ∀ e ∈ issuedBy m.except x.cookies (encryptRun m.codec m.except x.nonces x.cookies).1, e ∈ issA)
+    (hns : ∀ n ∈ x.nonces, goodNonce n) (hlen : encCount m.except x.cookies ≤ x.nonces.length)
+    (hT : ∀ n v, m.codec.enc n v = none → t.keyValid = false ∨ t.encFails v = true)
+    (hD : ∀ s, m.decPanics s = true → t.decPanics s = true) :
+    exchangeViolation wc m.except t issB issA x (serve m x) = none := by
+  unfold exchangeViolation serve
+  cases hskip : x.skip with
+  | true =>
+    simp only [if_true, reqViolationAt, skip_request_ok, passThrough_keep]
+    by_cases hp : (x.flow = Flow.panic && !x.recover) = true
+    · simp only [hp, if_true]
+      simp only [Bool.and_eq_true, decide_eq_true_eq, Bool.not_eq_true'] at hp
+      simp [hp.1, hp.2]
+    · simp only [hp, Bool.false_eq_true, if_false, wire_clause, if_true]
+  | false =>
+    simp only [Bool.false_eq_true, if_false]
+    cases hrp : reqPanics m.decPanics m.except x.jar with
+    | true =>
+      simp only [if_true, Bool.not_false, Bool.true_and, Option.isNone_none, passThrough_keep]
+      have hany : (x.jar.any fun e => !isDisabled e.1 m.except && t.decPanics e.2) = true := by
+        unfold reqPanics at hrp
+        rw [List.any_eq_true] at hrp ⊢
+        obtain ⟨e, he, hb⟩ := hrp
+        simp only [Bool.and_eq_true] at hb ⊢
+        exact ⟨e, (mem_firsts he).1, hb.1, hD _ hb.2⟩
+      simp only [hany, if_true]
+      cases hr : x.recover with
+      | true => simp only [if_true, wire_clause]
+      | false => simp
+    | false =>
+      simp only [Bool.false_eq_true, if_false, reqViolationAt,
+        request_meets_spec m.except x.jar (hS hskip) (hC hskip) x.ks, Option.isNone_some]
+      have hle := encryptRun_length_le m.codec m.except x.cookies x.nonces
+      have hp := encryptRun_rel m.codec m.except x.cookies x.nonces hns
+      have hresp : respAllOK wc m.except issA
+          (x.cookies.take (encryptRun m.codec m.except x.nonces x.cookies).1.length)
+          (encryptRun m.codec m.except x.nonces x.cookies).1 = true :=
+        resp_clause hF m.except issA hfun _ _ hp (by rw [issuedBy_take]; exact hsub hskip)
+      have hnlt : ¬ x.cookies.length < (encryptRun m.codec m.except x.nonces x.cookies).1.length := by omega
+      cases hok : (encryptRun m.codec m.except x.nonces x.cookies).2 with
+      | true =>
+        have hlen' := encryptRun_complete_length m.codec m.except x.cookies x.nonces hok
+        have hnlt' : ¬ (encryptRun m.codec m.except x.nonces x.cookies).1.length < x.cookies.length := by omega
+        by_cases hpn : (x.flow = Flow.panic && !x.recover) = true
+        · simp only [Bool.and_eq_true, decide_eq_true_eq, Bool.not_eq_true'] at hpn
+          simp [hpn.1, hpn.2]
+        · have : (decide (x.flow = Flow.panic) && !x.recover) = false := by simpa using hpn
+          simp only [Bool.not_true, Bool.or_false, this, Bool.false_eq_true, if_false, hnlt, hresp, hnlt',
+            decide_false, Bool.false_and, wire_clause, if_true]
+      | false =>
+        obtain ⟨c, hget, _, hwhy⟩ := encryptRun_stop m.codec m.except x.cookies x.nonces hok
+        have hlt : (encryptRun m.codec m.except x.nonces x.cookies).1.length < x.cookies.length := by
+          have := (List.getElem?_eq_some_iff.mp hget).1; exact this
+        have hexc : stopExcused t x.cookies (encryptRun m.codec m.except x.nonces x.cookies).1.length = true := by
+          unfold stopExcused
+          rw [hget]
+          rcases hwhy with h | ⟨n, _, h⟩
+          · omega
+          · rcases hT n c.pvalue h with h | h
+            · simp [h]
+            · simp [h]
+        cases hr : x.recover with
+        | true =>
+          simp only [Bool.not_false, Bool.or_true, Bool.not_true, Bool.and_false, Bool.false_eq_true, if_false,
+            hnlt, hresp, hlt, decide_true, hexc, wire_clause, if_true]
+        | false => simp [hlt, hexc]
+
+/-- the oracle is told the truth about utils.go's pair under a valid key: nothing fails, nothing panics -/
+def stdTold : Told := { keyValid := true, encFails := fun _ => false, decPanics := fun _ => false }
+
+/-- THE WHOLE HANDLER FROM THE AES-GCM HYPOTHESES (utils.go's pair, valid key): with AEAD correctness,
+    GCM shape, integrity w.r.t. the seal log `L` and a truthful log, for every `Config.Next` decision,
+    request, response cookies (byte values), way the handlers end, recover or not, late writes: no clause
+    is violated, the response being judged against the log extended by what this exchange issues. -/
+theorem serve_meets_spec_aesgcm {A : Aead} {key kd : Bytes} {L : SealLog} (hk : decode key = some kd)
+    (hv : validKeyLen kd.length = true) (hA : A.Correct) (hG : A.GcmShape) (hAu : A.Authentic kd L)
+    (hL : A.Logged kd L) (ex : List Bytes) (x : Exchange) (hns : ∀ n ∈ x.nonces, goodNonce n)
+    (hlen : encCount ex x.cookies ≤ x.nonces.length) (hb : ∀ c ∈ x.cookies, IsBytes c.pvalue) :
+    exchangeViolation stdWire ex stdTold (wireIssued L)
+      (wireIssued L ++ issuedBy ex x.cookies (encryptRun (stdCodec A key) ex x.nonces x.cookies).1) x
+      (serve (stdMw A key ex) x) = none := by
+  have hp := encryptRun_rel (stdCodec A key) ex x.cookies x.nonces hns
+  have hcomp := std_complete hk hv hL
+  refine serve_meets_spec (m := stdMw A key ex) x (fun _ => (std_sound hk hAu).on x.jar) (fun _ => hcomp)
+    (std_format hG) ?_ (fun _ e he => List.mem_append.mpr (Or.inr he)) hns hlen ?_ (fun s hs => by cases hs)
+  · intro e he
+    rcases List.mem_append.mp he with h | h
+    · exact hcomp.1 e.1 e.2 e.1 h (hcomp.2 e.1 e.2 h)
+    · rw [← issuedBy_take] at h
+      obtain ⟨n, hn, hen⟩ := issuedBy_enc hp e h
+      obtain ⟨c, hc, hpv⟩ := issuedBy_plain hp e h
+      exact std_correct hA hG n e.2 e.1 hn (by rw [hpv]; exact hb c (List.mem_of_mem_take hc)) hen
+  · intro n v hnone
+    exact absurd ⟨kd, hk, hv⟩ ((std_enc_none_iff A key n v).mp hnone)
+
+/-- … AND FOR EVERY OTHER KEY TEXT THE CONSTRUCTOR ACCEPTS (it does not decode, or to a wrong length):
+    nothing was ever issued; every non-excepted request cookie reaches the handler empty; a response
+    with a non-excepted cookie panics with nothing in clear left of it; no clause is violated. Together
+    with `serve_meets_spec_aesgcm`: the key handling is total. -/
+theorem serve_meets_spec_invalid_key (A : Aead) (key : Bytes) (hbad : ¬ KeyValid key) (ex : List Bytes)
+    (x : Exchange) (hns : ∀ n ∈ x.nonces, goodNonce n) (hlen : encCount ex x.cookies ≤ x.nonces.length) :
+    exchangeViolation stdWire ex { stdTold with keyValid := false } [] [] x (serve (stdMw A key ex) x) = none := by
+  have hbad' : ∀ kd, decode key = some kd → validKeyLen kd.length = false := by
+    intro kd h
+    cases hv : validKeyLen kd.length with
+    | false => rfl
+    | true => exact absurd ⟨kd, h, hv⟩ hbad
+  obtain ⟨hdec, henc⟩ := std_invalid_key A key hbad'
+  have hp := encryptRun_rel (stdCodec A key) ex x.cookies x.nonces hns
+  refine serve_meets_spec (m := stdMw A key ex) x ?_ ?_ ?_ (fun e he => by cases he) ?_ hns hlen
+    (fun _ _ _ => Or.inl rfl) (fun s hs => by cases hs)
+  · intro _ k r p _ hd; rw [show (stdMw A key ex).codec.dec r = none from hdec r] at hd; cases hd
+  · intro _
+    refine ⟨?_, ?_⟩
+    · intro c0 p r hm; cases hm
+    · intro c0 p hm; cases hm
+  · intro n p e _ he; rw [show (stdMw A key ex).codec.enc n p = none from henc n p] at he; cases he
+  · intro _ e he
+    rw [← issuedBy_take] at he
+    obtain ⟨n, _, hen⟩ := issuedBy_enc hp e he
+    rw [henc n e.2] at hen; cases hen
+
+/-- the faulty custom pair of the harness (Encryptor errors / panics on some values, Decryptor panics on
+    some texts) inherits correctness and wire format from the pair it wraps: failing more often cannot
+    break either -/
+theorem faulty_correct {C : Codec} (h : (wrapCodec C).Correct) : (faultyCodec C).Correct := by
+  intro n p e hn hp he
+  simp only [faultyCodec] at he ⊢
+  split at he
+  · cases he
+  · exact h n p e hn hp he
+
+theorem faulty_format {C : Codec} {wc : WireCodec} (h : (wrapCodec C).Format wc) : (faultyCodec C).Format wc := by
+  intro n p e hn he
+  simp only [faultyCodec] at he
+  split at he
+  · cases he
+  · exact h n p e hn he
+
+/-- THE WHOLE HANDLER WITH A CUSTOM PAIR THAT ERRORS AND PANICS (valid key, AES-GCM hypotheses): a
+    Decryptor panic keeps every handler from running, an Encryptor error or panic stops the response
+    loop with nothing in clear; no clause is violated. -/
+theorem serve_meets_spec_faulty {A : Aead} {key kd : Bytes} {L : SealLog} (hk : decode key = some kd)
+    (hv : validKeyLen kd.length = true) (hA : A.Correct) (hG : A.GcmShape) (hAu : A.Authentic kd L)
+    (hL : A.Logged kd L) (ex : List Bytes) (x : Exchange) (hns : ∀ n ∈ x.nonces, goodNonce n)
+    (hlen : encCount ex x.cookies ≤ x.nonces.length) (hb : ∀ c ∈ x.cookies, IsBytes c.pvalue) :
+    let m : Mw := { codec := faultyCodec (stdCodec A key), decPanics := faultyDecPanics, except := ex }
+    exchangeViolation wrapWire ex { keyValid := true, encFails := faultyEnc, decPanics := faultyDecPanics }
+      (wrapIssued (wireIssued L))
+      (wrapIssued (wireIssued L) ++ issuedBy ex x.cookies (encryptRun m.codec ex x.nonces x.cookies).1) x
+      (serve m x) = none := by
+  intro m
+  have hp := encryptRun_rel m.codec ex x.cookies x.nonces hns
+  have hcomp : m.codec.Complete wrapWire (wrapIssued (wireIssued L)) := wrap_complete (std_complete hk hv hL)
+  have hcor : m.codec.Correct := faulty_correct (wrap_correct (std_correct hA hG))
+  refine serve_meets_spec (m := m) x (fun _ => (wrap_sound (std_sound hk hAu)).on x.jar) (fun _ => hcomp)
+    (faulty_format (wrap_format (std_format hG))) ?_ (fun _ e he => List.mem_append.mpr (Or.inr he)) hns hlen ?_
+    (fun s hs => hs)
+  · intro e he
+    rcases List.mem_append.mp he with h | h
+    · exact hcomp.1 e.1 e.2 e.1 h (hcomp.2 e.1 e.2 h)
+    · rw [← issuedBy_take] at h
+      obtain ⟨n, hn, hen⟩ := issuedBy_enc hp e h
+      obtain ⟨c, hc, hpv⟩ := issuedBy_plain hp e h
+      exact hcor n e.2 e.1 hn (by rw [hpv]; exact hb c (List.mem_of_mem_take hc)) hen
+  · intro n v hnone
+    right
+    show faultyEnc v = true
+    cases hf : faultyEnc v with
+    | true => rfl
+    | false =>
+      have : m.codec.enc n v = (wrapCodec (stdCodec A key)).enc n v := by
+        show (faultyCodec (stdCodec A key)).enc n v = _
+        simp [faultyCodec, hf]
+      rw [this] at hnone
+      simp only [wrapCodec, Option.map_eq_none_iff] at hnone
+      exact absurd ⟨kd, hk, hv⟩ ((std_enc_none_iff A key n v).mp hnone)
+
 /-! ## whole histories -/
 
-/-- unforgeability along a history: at every step, whatever the request carries that the Decryptor
-    accepts denotes a ciphertext issued BEFORE that step -/
+/-- unforgeability along a history: at every step that is not skipped, whatever the request carries
+    that the Decryptor accepts denotes a ciphertext issued BEFORE that step -/
 def Unforgeable (C : Codec) (wc : WireCodec) (ex : List Bytes) : Issued → List Step → Prop
   | _, [] => True
-  | log, s :: rest => C.SoundOn wc log s.jar ∧ Unforgeable C wc ex (nextLog C ex log s) rest
+  | log, s :: rest =>
+    (s.skip = false → C.SoundOn wc log s.jar) ∧ Unforgeable C wc ex (nextLog C ex log s) rest
 
 /-- nonces are 12 real bytes, cookie values are byte strings -/
 def GoodSteps (steps : List Step) : Prop :=
   ∀ s ∈ steps, (∀ n ∈ s.nonces, goodNonce n) ∧ (∀ c ∈ s.cookies, IsBytes c.pvalue)
 
 /-- EVERY HISTORY: for a correct Encryptor/Decryptor pair with the wire format, whose Decryptor
-    depends on a text only through the ciphertext it denotes, and any sequence of exchanges in which
-    the client cannot forge (each request carries nothing decryptable that was not issued before):
-    no step violates any clause of the oracle — requests judged against the log issued so far,
-    responses against the log including them. The log is the one the middleware itself produces. -/
+    depends on a text only through the ciphertext it denotes, and any sequence of exchanges — some of
+    them skipped by `Config.Next`, some with a response loop stopped by a failing Encryptor — in which
+    the client cannot forge (each request that is not skipped carries nothing decryptable that was not
+    issued before): no step violates any clause of the oracle — requests judged against the log issued
+    so far, responses against the log including them. The log is the one the middleware itself
+    produces (nothing for a skipped step; the encrypted prefix for a stopped loop). -/
 theorem history_meets_spec {C : Codec} {wc : WireCodec} (hCor : C.Correct) (hF : C.Format wc)
     (hR : C.Respects wc) (ex : List Bytes) :
     ∀ (steps : List Step) (log : Issued), C.Wrote log → GoodSteps steps →
@@ -475,24 +727,28 @@ theorem history_meets_spec {C : Codec} {wc : WireCodec} (hCor : C.Correct) (hF :
     have hGs := hG s (by simp)
     have hGr : GoodSteps rest := fun x hx => hG x (List.mem_cons_of_mem _ hx)
     unfold historyViolation
-    rw [request_meets_spec ex s.jar hS (complete_of_wrote hCor hF hR hW) s.ks]
+    rw [request_meets_spec_next s.skip ex s.jar hS (fun _ => complete_of_wrote hCor hF hR hW) s.ks]
     simp only
-    cases he : encryptJar C ex s.nonces s.cookies with
-    | none =>
-      simp only
-      have : nextLog C ex log s = log := by simp [nextLog, he]
-      rw [this] at hU'
+    cases hsk : s.skip with
+    | true =>
+      have hlog : nextLog C ex log s = log := by simp [nextLog, hsk]
+      rw [hlog] at hU'
+      simp only [if_true, stepMid, hsk, passThrough_keep, Bool.not_true, Bool.false_eq_true, if_false]
       exact ih log hW hGr hU'
-    | some ws =>
-      simp only
-      have hp := encryptJar_rel C ex s.cookies s.nonces ws hGs.1 he
-      have hW' : C.Wrote (log ++ issuedBy ex s.cookies ws) := wrote_append hW (wrote_issuedBy hp hGs.2)
-      have hresp : respAllOK wc ex (log ++ issuedBy ex s.cookies ws) s.cookies ws = true :=
-        resp_clause hF ex _ (wrote_functional hCor hW') s.cookies ws hp
-          (fun e hm => List.mem_append.mpr (Or.inr hm))
-      simp only [hresp, Bool.not_true, Bool.false_eq_true, if_false]
-      have : nextLog C ex log s = log ++ issuedBy ex s.cookies ws := by simp [nextLog, he]
-      rw [this] at hU'
+    | false =>
+      have hp := encryptRun_rel C ex s.cookies s.nonces hGs.1
+      have hlog : nextLog C ex log s = log ++ issuedBy ex s.cookies (encryptRun C ex s.nonces s.cookies).1 := by
+        simp [nextLog, hsk]
+      have hWn : C.Wrote (issuedBy ex s.cookies (encryptRun C ex s.nonces s.cookies).1) := by
+        rw [← issuedBy_take]
+        exact wrote_issuedBy hp (fun c hc => hGs.2 c (List.mem_of_mem_take hc))
+      have hW' : C.Wrote (nextLog C ex log s) := by rw [hlog]; exact wrote_append hW hWn
+      have hresp : respAllOK wc ex (nextLog C ex log s)
+          (s.cookies.take (encryptRun C ex s.nonces s.cookies).1.length)
+          (encryptRun C ex s.nonces s.cookies).1 = true :=
+        resp_clause hF ex _ (wrote_functional hCor hW') _ _ hp
+          (fun e hm => by rw [hlog]; rw [issuedBy_take] at hm; exact List.mem_append.mpr (Or.inr hm))
+      simp only [Bool.false_eq_true, if_false, stepMid, hsk, hresp, Bool.not_true]
       exact ih _ hW' hGr hU'
 
 /-- the same for utils.go's pair, from the AES-GCM hypotheses -/
@@ -547,6 +803,99 @@ theorem key_accepted_iff (A : Aead) (key n p : Bytes) :
     exact ⟨kd, h1, h2⟩
   · rintro ⟨kd, h1, h2⟩
     exact ⟨encode (n ++ A.sealWith kd n p), by show encryptCookie A n p key = _; simp [encryptCookie, h1, h2]⟩
+
+/-! ### every key text: what the constructor accepts, what happens per request -/
+
+/-- `configDefault` accepts exactly the non-empty key texts (it looks at nothing else) -/
+theorem ctor_accepts_iff (key : Bytes) : ctorPanics key = false ↔ key ≠ [] := by
+  cases key <;> simp [ctorPanics]
+
+/-- the request direction cannot panic with utils.go's pair, whatever the key text: a handler behind
+    the middleware always runs -/
+theorem std_request_never_panics (A : Aead) (key : Bytes) (ex : List Bytes) (x : Exchange) :
+    (serve (stdMw A key ex) x).views.isSome = true := by
+  unfold serve
+  cases x.skip <;> simp [stdMw, reqPanics]
+
+/-- WHEN THE RESPONSE LOOP PANICS with utils.go's pair (given enough randomness): exactly when there is
+    a cookie to encrypt and the key text is not valid -/
+theorem response_panics_iff_invalid_key (A : Aead) (key : Bytes) (ex : List Bytes) (ns : List Bytes)
+    (cs : List RCookie) (hlen : encCount ex cs ≤ ns.length) :
+    encryptJar (stdCodec A key) ex ns cs = none ↔
+      (∃ c ∈ cs, isDisabled c.key ex = false) ∧ ¬ KeyValid key := by
+  rw [encryptJar_eq_none_iff]
+  constructor
+  · intro h
+    obtain ⟨c, hget, hd, hwhy⟩ := encryptRun_stop _ ex cs ns h
+    refine ⟨⟨c, List.mem_of_getElem? hget, hd⟩, ?_⟩
+    rcases hwhy with h | ⟨n, _, h⟩
+    · omega
+    · exact (std_enc_none_iff A key n c.pvalue).mp h
+  · rintro ⟨hc, hk⟩
+    exact encryptRun_fails_of _ ex cs (fun n p => (std_enc_none_iff A key n p).mpr hk) hc ns
+
+/-- a valid key never panics at request time (request loop: never; response loop: given randomness) -/
+theorem valid_key_never_panics (A : Aead) (key : Bytes) (hk : KeyValid key) (ex : List Bytes)
+    (ns : List Bytes) (cs : List RCookie) (hlen : encCount ex cs ≤ ns.length) :
+    ∃ ws, encryptJar (stdCodec A key) ex ns cs = some ws := by
+  cases h : encryptJar (stdCodec A key) ex ns cs with
+  | some ws => exact ⟨ws, rfl⟩
+  | none => exact absurd hk ((response_panics_iff_invalid_key A key ex ns cs hlen).mp h).2
+
+/-- "NO PANIC AT REQUEST TIME FOR ANY KEY THE CONSTRUCTOR ACCEPTED" — the exact extent to which this
+    holds of the code: a key text is panic-free at request time (every Except list, every response,
+    enough randomness) iff it is VALID. The constructor accepts more (`ctor_accepts_iff`); for the
+    rest the first response that carries a non-excepted cookie panics
+    (`accepted_key_can_panic_at_request_time`). -/
+theorem request_time_panic_free_iff_key_valid (A : Aead) (key : Bytes) :
+    (∀ ex ns cs, encCount ex cs ≤ ns.length → encryptJar (stdCodec A key) ex ns cs ≠ none) ↔
+      KeyValid key := by
+  constructor
+  · intro h
+    refine Classical.byContradiction fun hk => ?_
+    have hl : encCount [] [(⟨[], [], [], [], []⟩ : RCookie)] ≤ [([] : Bytes)].length := by decide
+    exact h [] [[]] [⟨[], [], [], [], []⟩] hl
+      ((response_panics_iff_invalid_key A key [] [[]] _ hl).mpr
+        ⟨⟨⟨[], [], [], [], []⟩, by simp, by simp [isDisabled]⟩, hk⟩)
+  · intro hk ex ns cs hlen h
+    obtain ⟨ws, hws⟩ := valid_key_never_panics A key hk ex ns cs hlen
+    rw [h] at hws; cases hws
+
+/-- the witness: the key text `abc` is accepted by the constructor, every non-excepted request cookie
+    then reaches the handler empty, and the first response with a non-excepted cookie panics -/
+theorem accepted_key_can_panic_at_request_time :
+    ctorPanics (b "abc") = false ∧ ¬ KeyValid (b "abc") ∧
+    ∀ (A : Aead) (ns : List Bytes) (c : RCookie),
+      encryptJar (stdCodec A (b "abc")) [] ns [c] = none := by
+  have hbad : ∀ kd, decode (b "abc") = some kd → validKeyLen kd.length = false := by
+    intro kd h
+    have : decode (b "abc") = none := by decide
+    rw [this] at h; cases h
+  refine ⟨by decide, ?_, ?_⟩
+  · rintro ⟨kd, h1, h2⟩; rw [hbad kd h1] at h2; cases h2
+  · intro A ns c
+    exact (invalid_key_fails_closed A (b "abc") [] hbad).2 ns [c] ⟨c, by simp, by simp [isDisabled]⟩
+
+/-- WHEN A PANIC REACHES THE SERVER with utils.go's pair: there is no recover middleware in front, and
+    either a handler behind panicked itself, or the exchange is not skipped, has a cookie to encrypt and
+    the key text is not valid. (Nothing else: not the request loop, not `Config.Next`.) -/
+theorem server_sees_panic_iff (A : Aead) (key : Bytes) (ex : List Bytes) (x : Exchange)
+    (hlen : encCount ex x.cookies ≤ x.nonces.length) :
+    (serve (stdMw A key ex) x).wire = none ↔
+      x.recover = false ∧ (x.flow = Flow.panic ∨
+        (x.skip = false ∧ (∃ c ∈ x.cookies, isDisabled c.key ex = false) ∧ ¬ KeyValid key)) := by
+  have hrun : (encryptRun (stdCodec A key) ex x.nonces x.cookies).2 = false ↔
+      (∃ c ∈ x.cookies, isDisabled c.key ex = false) ∧ ¬ KeyValid key := by
+    rw [← encryptJar_eq_none_iff]; exact response_panics_iff_invalid_key A key ex x.nonces x.cookies hlen
+  unfold serve
+  cases hs : x.skip with
+  | true =>
+    cases hr : x.recover <;> cases hf : x.flow <;> simp
+  | false =>
+    rw [← hrun]
+    simp only [stdMw, reqPanics, Bool.and_false, List.any_eq_true, Bool.false_eq_true, and_false,
+      exists_false, if_false, true_and]
+    cases hr : x.recover <;> cases hf : x.flow <;> simp
 
 /-! ## the defect that was fixed, as theorems about the old loops -/
 
@@ -691,9 +1040,9 @@ example : toyAead.Correct ∧ toyAead.GcmShape ∧ GoodSteps exSteps ∧
     · refine ⟨?_, ?_⟩
       · intro n hn; simp at hn
       · intro c hc; simp at hc
-  · intro k r p hm; cases hm
-  · intro k r p hm hd
-    simp only [exSteps, List.mem_cons, Prod.mk.injEq, List.not_mem_nil, or_false] at hm
+  · intro _ k r p hm; cases hm
+  · intro _ k r p hm hd
+    simp only [List.mem_cons, Prod.mk.injEq, List.not_mem_nil, or_false] at hm
     rcases hm with ⟨rfl, rfl⟩ | ⟨rfl, rfl⟩ | ⟨rfl, rfl⟩ | ⟨rfl, rfl⟩
     · have h1 : (stdCodec toyAead exKey).dec (encode (List.replicate 12 5 ++ (toyAead.sealWith [] [] (b "hi"))))
           = some (b "hi") := by decide
@@ -710,5 +1059,84 @@ example : toyAead.Correct ∧ toyAead.GcmShape ∧ GoodSteps exSteps ∧
 example : reqViolation stdWire [] [] [(b "a", b "admin")]
     { enum := [(b "a", b "admin")], look := [], bind := [], hdr := b "a=admin" }
     = some "handler-enumerates-other-text" := by decide
+
+/-! ### `Config.Next`, failing code, late writes: concrete instances -/
+
+def exMw : Mw := stdMw toyAead exKey [b "csrf_"]
+
+def exchg (skip : Bool) (jar : Jar) (cookies : List RCookie) (flow : Flow) (nonces : List Bytes)
+    (recover : Bool) (late : List Late) : Exchange :=
+  { skip := skip, jar := jar, ks := jar.map (·.1), opre := [], cookies := cookies, flow := flow,
+    nonces := nonces, recover := recover, late := late }
+
+-- a skipped exchange: the handler sees the client's raw text, the response cookies leave in clear
+example : let x := exchg true [(b "a", b "tampered")] exCookies Flow.ok [] false []
+    (serve exMw x).views = some (rawViews [(b "a", b "tampered")] [b "a"]) ∧
+    ((serve exMw x).wire.map fun ws => ws.map (·.raw)) = some [b "a=hi; path=/", b "csrf_=t"] := by decide
+
+-- the same exchange not skipped: the handler sees "", the client ciphertext
+example : let x := exchg false [(b "a", b "tampered")] exCookies Flow.ok [List.replicate 12 5] false []
+    ((serve exMw x).views.map (·.enum)) = some [(b "a", [])] ∧
+    ((serve exMw x).wire.map fun ws => ws.map (·.raw)) =
+      some [b "a=BQUFBQUFBQUFBQUFaGkAAAAAAAAAAAAAAAAAAAAA; path=/", b "csrf_=t"] := by decide
+
+-- a handler behind the middleware panics, a recover middleware in front answers: still ciphertext;
+-- the error handler's own cookie (a late write) is not encrypted and replaces nothing
+def exEh : Late := ⟨true, ⟨b "eh", b "eh=1", b "eh", b "1", []⟩⟩
+
+example : let x := exchg false [] exCookies Flow.panic [List.replicate 12 5] true [exEh]
+    ((serve exMw x).wire.map fun ws => ws.map (·.raw)) =
+      some [b "a=BQUFBQUFBQUFBQUFaGkAAAAAAAAAAAAAAAAAAAAA; path=/", b "csrf_=t", b "eh=1"] := by decide
+
+-- …without it the panic reaches the server
+example : (serve exMw (exchg false [] exCookies Flow.panic [List.replicate 12 5] false [])).wire = none := by
+  decide
+
+-- an invalid key (accepted by the constructor): the excepted cookie in front of the first cookie to
+-- encrypt is all that is left when the loop panics; nothing in clear
+example : (encryptRun (stdCodec toyAead (b "abc")) [b "csrf_"] [List.replicate 12 5]
+      (exCookies.reverse ++ exCookies)).1.map (·.raw) = [b "csrf_=t"] ∧
+    (encryptRun (stdCodec toyAead (b "abc")) [b "csrf_"] [List.replicate 12 5]
+      (exCookies.reverse ++ exCookies)).2 = false := by decide
+
+-- a Decryptor that panics: no handler runs; a faulty Encryptor stops the loop at its cookie
+def exFaulty : Mw :=
+  { codec := faultyCodec (stdCodec toyAead exKey), decPanics := faultyDecPanics, except := [] }
+
+example : let x := exchg false [(b "a", b "PANIC1")] [] Flow.ok [] false []
+    (serve exFaulty x).views = none ∧ (serve exFaulty x).wire = none := by decide
+
+example : (encryptRun exFaulty.codec [] [List.replicate 12 5, List.replicate 12 6]
+      [⟨b "a", b "a=ok", b "a", b "ok", []⟩, ⟨b "b", b "b=ERRx", b "b", b "ERRx", []⟩,
+       ⟨b "c", b "c=secret", b "c", b "secret", []⟩]).1.map (·.pkey) = [b "a"] := by decide
+
+-- the oracle on observations: plaintext left where the middleware is left is found, a skipped
+-- request that was decrypted anyway is found, a late write that garbles a cookie is found
+def exX : Exchange := exchg false [] exCookies Flow.panic [List.replicate 12 5] true []
+def exTold : Told := { keyValid := true, encFails := fun _ => false, decPanics := fun _ => false }
+
+example : exchangeViolation stdWire [b "csrf_"] exTold [] [] exX
+    { views := some (rawViews [] []), mid := exCookies.map keep, wire := some (exCookies.map keep) }
+    = some "client-sees-non-ciphertext-or-changed-cookie" := by decide
+
+example : exchangeViolation stdWire [] exTold [] [] (exchg true [(b "a", b "x")] [] Flow.ok [] false [])
+    { views := some (rawViews [(b "a", [])] [b "a"]), mid := [], wire := some [] }
+    = some "next-skip-request-changed" := by decide
+
+example : exchangeViolation stdWire [] exTold [] [] (exchg true [] [] Flow.ok [] false [])
+    { views := some (rawViews [] []), mid := [], wire := some [⟨b "z", b "z=1", b "z", b "1", []⟩] }
+    = some "late-write-damaged-cookie" := by decide
+
+-- `serve_meets_spec` on the exchange above with the log it issues itself
+example : exchangeViolation stdWire [b "csrf_"] exTold []
+    (issuedBy [b "csrf_"] exX.cookies (serve exMw exX).mid) exX (serve exMw exX) = none := by decide
+
+-- a history with a skipped step in the middle: the cookie set in clear during the skipped step is
+-- rejected ("") when it comes back in a step that is not skipped
+def exSteps2 : List Step :=
+  [{ skip := true, jar := [(b "a", b "raw")], ks := [b "a"], cookies := exCookies, nonces := [] },
+   { jar := [(b "a", b "hi")], ks := [b "a"], cookies := exCookies, nonces := [List.replicate 12 5] }]
+
+example : historyViolation (stdCodec toyAead exKey) stdWire [b "csrf_"] [] exSteps2 = none := by decide
 
 end C20
